@@ -104,7 +104,12 @@ var applyUnit = ev.Unit[ApplyCase]{
 		if gen.OneIn(t, 15, "longseq") {
 			maxOps = 24
 		}
-		ops := g.Seq(t, doc, ref.Opts{Neg: true}, 1, maxOps, 0)
+		var ops []ref.Op
+		if gen.OneIn(t, 20, "alias") {
+			ops = g.Alias(t, doc, ref.Opts{Neg: true})
+		} else {
+			ops = g.Seq(t, doc, ref.Opts{Neg: true}, 1, maxOps, 0)
+		}
 		dt, pt := gen.Texts(t, doc, ref.OpsTree(ops), false, "sp")
 		return ApplyCase{Doc: dt, Patch: pt}
 	},
